@@ -367,6 +367,14 @@ class Scenario:
             emit("op1-scriptsig", [0x51], [])
             emit("pubkey-only", [ssig[1]], [])
             emit("op1+pubkey", [0x51, ssig[1]], [])
+            # signature-free scriptSigs whose opcodes try to swallow or skip the scriptPubKey
+            emit("unterminated-notif", [0x51, 0x51, 100], [])
+            emit("unterminated-notif-else", [0x51, 0, 100, 103], [])
+            emit("unterminated-if", [0x51, 0, 99], [])
+            emit("unterminated-if-else", [0x51, 0x51, 99, 103], [])
+            emit("pubkey+unterminated-notif", [ssig[1], 0x51, 0x51, 100], [])
+            emit("nested-unterminated", [0x51, 0x51, 0x51, 100, 99, 104], [])
+            emit("op-return-first", [0x51, 106], [])
         if typ in ("p2wsh", "p2sh-p2wsh"):
             other = bytes([0x51])
             emit("swapped-witness-script-true", ssig, list(wit)[:-1] + [other])
